@@ -118,6 +118,11 @@ def gen_plan(seed, tier):
       if st["cmd"] == W.FC_ADD and r.chance(0.15):
         # names a buffer that certainly does not exist
         st["fbuf"] = r.pick([0x7fffffff, 4000])
+      elif st["cmd"] == W.FC_ADD and r.chance(0.12):
+        # an entry whose action list holds an action of a type the switch
+        # cannot know: an invalid request, to be refused as a whole
+        st["fbad"] = r.pick([12, 100, 0x7fff, 0xffff])
+        st["fbadpos"] = r.pick([0, 1])
     elif k == "packet_out":
       st["outp"] = r.wpick([(3, r.randint(1, nports)), (1, W.OFPP_FLOOD),
                             (1, nports + 1)])
@@ -330,12 +335,23 @@ def _drive(sim, world, plan, known, hit_known):
     elif op == "flow_mod":
       m = _match_alphabet(st["m"], nports)
       acts = [("output", st["outp"], 0xffff)]
-      raw = W.enc_flow_mod(xid, m, st["cmd"], acts, cookie=st["cookie"],
+      key = (W.canon_match(m), st["prio"])
+      full = st["cmd"] == W.FC_ADD and key not in model["flows"] and \
+          len(model["flows"]) >= cfg["max_entries"]
+      wire_acts = acts
+      if st.get("fbad") is not None and not full:
+        bad = ("raw", struct.pack("!HHL", st["fbad"], 8, 0x2320))
+        wire_acts = acts + [bad] if st.get("fbadpos") else [bad] + acts
+      raw = W.enc_flow_mod(xid, m, st["cmd"], wire_acts, cookie=st["cookie"],
                            priority=st["prio"],
                            buffer_id=st.get("fbuf", W.NO_BUFFER))
       world.send(raw)
-      if st["cmd"] == W.FC_ADD:
-        key = (W.canon_match(m), st["prio"])
+      if wire_acts is not acts:
+        sim.probes["flow_mod_with_unknown_action"] += 1
+        E("error", xid, etype=W.ET_BAD_ACTION,
+          codes=(W.BAC_BAD_TYPE, W.BAC_BAD_VENDOR, W.BAC_BAD_VENDOR_TYPE),
+          req=raw)
+      elif st["cmd"] == W.FC_ADD:
         if key not in model["flows"] and \
             len(model["flows"]) >= cfg["max_entries"]:
           # refused: one error, and that is the whole answer (nothing else
